@@ -152,9 +152,9 @@ func readArchives(path string, l Layout, from, until, now int64) ([]fetchResult,
 type valueKind int
 
 const (
-	valGeneral valueKind = iota
-	valDyadic            // exactly summable
-	valPrintable         // values whose text needs many digits, infinities (view)
+	valGeneral   valueKind = iota
+	valDyadic              // exactly summable
+	valPrintable           // values whose text needs many digits, infinities (view)
 )
 
 func genFileValue(t *rapid.T, k valueKind) float64 {
